@@ -459,10 +459,12 @@ type Universe struct {
 	datatypes map[string]*Datatype
 	dtOrder   []string
 	sorts     map[string]bool // uninterpreted sorts
+	extraAxioms string
+	funcAxioms  map[string]string // axioms printed when the function is used
 }
 
 func NewUniverse() *Universe {
-	u := &Universe{funcs: map[string]*FuncDecl{}, datatypes: map[string]*Datatype{}, sorts: map[string]bool{}}
+	u := &Universe{funcs: map[string]*FuncDecl{}, datatypes: map[string]*Datatype{}, sorts: map[string]bool{}, funcAxioms: map[string]string{}}
 	u.sorts["Str"] = true
 	return u
 }
@@ -522,7 +524,9 @@ func (u *Universe) Script(logicOpts string, assumptions []*Term, goal *Term, wan
 		noteSort(t.Sort)
 		switch t.Op {
 		case "var":
-			usedVars[t.Val] = t.Sort
+			if !strings.HasPrefix(t.Val, "bv!") {
+				usedVars[t.Val] = t.Sort
+			}
 		case "int", "real", "bool":
 		default:
 			if _, ok := u.funcs[t.Op]; ok {
@@ -539,6 +543,10 @@ func (u *Universe) Script(logicOpts string, assumptions []*Term, goal *Term, wan
 	}
 	for _, t := range all {
 		walk(t)
+	}
+	if usedFuncs["dw"] || usedFuncs["slen"] {
+		usedFuncs["dw"] = true
+		usedFuncs["slen"] = true
 	}
 	for _, fn := range keys(usedFuncs) {
 		f := u.funcs[fn]
@@ -581,6 +589,16 @@ func (u *Universe) Script(logicOpts string, assumptions []*Term, goal *Term, wan
 	sort.Strings(vn)
 	for _, n := range vn {
 		fmt.Fprintf(&sb, "(declare-const %s %s)\n", n, usedVars[n])
+	}
+	if usedFuncs["dw"] || usedFuncs["slen"] {
+		if _, ok := u.funcs["dw"]; ok {
+			sb.WriteString(u.extraAxioms)
+		}
+	}
+	for _, fn := range keys(usedFuncs) {
+		if ax, ok := u.funcAxioms[fn]; ok {
+			sb.WriteString(ax)
+		}
 	}
 	for _, a := range assumptions {
 		fmt.Fprintf(&sb, "(assert %s)\n", a.Key())
